@@ -55,11 +55,43 @@ def run(ctx):
             raise vlib.Infra("binding self-test: corrupted persistence trace accepted")
         break
     parallel(ctx, quick, behs)
+    sigkill(ctx, quick, behs)
     ctx.assumptions += [
         "crashes are in-process: the state object is dropped and the bbolt file closed and re-opened at the decorator's crash points "
         "(before / after the backing-store write, between operations); bbolt's own transaction atomicity is trusted",
         "six marshaler stackings (protobuf, encryption, zstd below/above threshold, both nestings)",
     ]
+
+
+def sigkill(ctx, quick, behs):
+    """The operation script runs in a CHILD PROCESS against a real bbolt file with real syncs; the parent kills it with SIGKILL at
+    a random instant after a randomly chosen operation was announced (before, inside or after the bbolt transaction, between the
+    commit and the in-memory update, between operations), lets a new child continue (up to three kills) and re-opens the file
+    itself: acknowledged operations + re-opened contents are judged by TracePersist."""
+    sub = behs[:18 if quick else 400]
+    inp = os.path.join(ctx.scratch, "killbehs.json")
+    json.dump(sub, open(inp, "w"))
+    binary = vlib.go_build_test(ctx, "c10")
+    out = os.path.join(ctx.scratch, "kill.ndjson")
+    vlib.go_run(ctx, binary, "TestKill", {"VERIF_IN": inp, "VERIF_OUT": out}, timeout=3000)
+    recs = vlib.read_ndjson(out)
+    traces = vlib.split_traces(recs)
+    mism, consumed, r = vlib.validate(ctx, "TracePersist", "TracePersist.cfg", out, timeout=3000, name="val-kill")
+    if consumed != len(recs):
+        raise vlib.Infra("TracePersist consumed %s of %d\n%s" % (consumed, len(recs), r.out[-2500:]))
+    details = [x for x in r.out.splitlines() if x.startswith('<<"DETAIL"')]
+    crashes = [x for x in recs if x["ev"] == "crash"]
+    ctx.cov["traces_validated_against_impl"] += len(traces)
+    ctx.cov["sigkill_crashes"] = len(crashes)
+    ctx.cov["sigkill_crashes_during_an_operation"] = len([x for x in crashes if x["during"]])
+    if not crashes:
+        raise vlib.Infra("SIGKILL stage executed no crash")
+    for i, line in enumerate(mism):
+        m = re.match(r'<<"MISMATCH", "([^"]*)", (\d+), "([^"]*)">>', line)
+        tid, lno, what = m.group(1), int(m.group(2)), m.group(3)
+        ctx.violation("sigkill/%s" % what, "%s at line %d (child process killed, marshaler %s): %s" % (
+            what, lno, tid.split("#")[0], (details[i] if i < len(details) else "")[:700]),
+            {"tid": tid, "line": lno, "trace": [t for t in traces if t[0] == tid][0][1][:lno + 1]})
 
 
 def parallel(ctx, quick, behs):
